@@ -157,7 +157,11 @@ func (pr *poolRun) getOne(m *poolModel, oi int) bool {
 		stampPos(p, pr.next)
 		m.poss = append(m.poss, p)
 	}
-	pr.seen[ptr] = m.n()
+	if len(pr.seen) < 1500000 {
+		// (beyond that the map is dropped for memory's sake: an object handed
+		// out twice is still found, by the stamp check, when the run verifies)
+		pr.seen[ptr] = m.n()
+	}
 	m.stamp = append(m.stamp, pr.next)
 	ts.gets++
 	if m.n() > 1 && (m.n()-1)%m.spec.Block == 0 {
